@@ -235,13 +235,15 @@ Definition cn_induced (a : cn_arg) : nn_arg :=
 Definition set_eqZ (a b : list Z) : bool := subsetZ a b && subsetZ b a.
 Definition check_union (choice : list Z) (alts : list (list Z)) (alone : list Z) : bool :=
   set_eqZ (List.concat alts ++ alone) choice.
-(* check_intersection: no nest meets alone; two different nests (by position) share no
-   alternative.  NB: a repetition inside one nest's own list is not detected by the code. *)
+(* check_intersection: no nest lists an alternative twice (len(set(l)) != len(l) is refused
+   first, since the repair caeba92); no nest meets alone; two different nests (by position) share
+   no alternative.  The three refusals are the same exception class (BiogemeError raised by the
+   builders on check_partition's verdict), so their order inside the Python loop is immaterial. *)
 Definition disjointZ (a b : list Z) : bool := forallb (fun x => negb (memZ x b)) a.
 Fixpoint pairwise_disjoint (l : list (list Z)) : bool :=
   match l with [] => true | x :: r => forallb (disjointZ x) r && pairwise_disjoint r end.
 Definition check_intersection (alts : list (list Z)) (alone : list Z) : bool :=
-  forallb (fun a => disjointZ a alone) alts && pairwise_disjoint alts.
+  forallb nodupZ alts && (forallb (fun a => disjointZ a alone) alts && pairwise_disjoint alts).
 Definition check_partition (n : nl_nests) : bool :=
   check_union (nl_choice n) (map nn_alts (nl_list n)) (nl_alone n)
   && check_intersection (map nn_alts (nl_list n)) (nl_alone n).
